@@ -73,8 +73,26 @@ fn whole(ctx: &mut Ctx, enc: &[u8], doc: &Tree) {
     }
 }
 
-fn prefixes(ctx: &mut Ctx, enc: &[u8], doc: &Tree) {
-    for cut in 0..enc.len() {
+fn prefixes(ctx: &mut Ctx, enc: &[u8], doc: &Tree, rng: &mut Rng, all: bool) {
+    // every cut for small encodings; for large ones the first 80 cuts, the last 40, the cuts
+    // around the end of the top-level entry table and a random sample
+    let cuts: Vec<usize> = if all {
+        (0..enc.len()).collect()
+    } else {
+        let n = enc.len();
+        let count = (u32::from_be_bytes([enc[0], enc[1], enc[2], enc[3]]) & 0x1FFF_FFFF) as usize;
+        let table_end = (4 + 4 * count * if enc[0] & 0xE0 == 0x40 { 2 } else { 1 }).min(n - 1);
+        let mut v: Vec<usize> = (0..80.min(n)).collect();
+        v.extend(n.saturating_sub(40)..n);
+        v.extend(table_end.saturating_sub(9)..(table_end + 9).min(n));
+        for _ in 0..200 {
+            v.push(rng.below(n));
+        }
+        v.sort();
+        v.dedup();
+        v
+    };
+    for cut in cuts {
         let p = &enc[..cut];
         ctx.evals += 1;
         ctx.count("fault.truncate");
@@ -366,12 +384,18 @@ pub fn run(ctx: &mut Ctx) {
             return;
         }
         let mut rng = ctx.rng.fork();
+        let mut break_doc: Option<Tree> = None;
         let doc = if ctx.miri {
             gen::doc(&mut rng, &gen::DocCfg { max_depth: 2, max_fan: 2, nonfinite: true, container_p: 4 })
         } else {
             match i % 4 {
             _ if i % 16 == 5 => {
                 // wide rather than deep: hundreds of small containers side by side
+                if rng.chance(1, 3) {
+                    // elements without payload: the encoding is an entry table and nothing else
+                    let n = *rng.pick(&[255usize, 256, 257, 260, 300]);
+                    break_doc = Some(Tree::Arr((0..n).map(|k| match (k + rng.below(2)) % 4 { 0 => Tree::Null, 1 => Tree::Bool(true), 2 => Tree::Bool(false), _ => Tree::Str(String::new()) }).collect()));
+                }
                 let rows = 100 + rng.below(300);
                 let row = |rng: &mut Rng| if rng.bool() { Tree::Arr(vec![gen::scalar(rng, true)]) } else { Tree::Obj(vec![("k".into(), gen::scalar(rng, true))]) };
                 if rng.bool() {
@@ -389,12 +413,15 @@ pub fn run(ctx: &mut Ctx) {
             }
             }
         };
+        let doc = break_doc.take().unwrap_or(doc);
         let enc = refcodec::encode(&doc);
         ctx.count("seed_documents");
         whole(ctx, &enc, &doc);
         ctx.sample(|| format!("seed {} = {} (+ faults)", doc.show(), hex(&enc)));
         if enc.len() <= if ctx.miri { 48 } else { 4096 } {
-            prefixes(ctx, &enc, &doc);
+            prefixes(ctx, &enc, &doc, &mut rng, true);
+        } else if !ctx.miri && enc.len() >= 8 {
+            prefixes(ctx, &enc, &doc, &mut rng, false);
         }
         let exhaustive = enc.len() <= if ctx.miri { 0 } else { 256 };
         single_faults(ctx, &enc, &mut rng, exhaustive);
